@@ -33,6 +33,38 @@ static inline double bits_d(unsigned long long u) { double f; memcpy(&f, &u, 8);
 #define VR_ENSURES(label, c) do { bool ok__ = (c); printf("REPLAY ensures %%s : %%s\n", label, ok__ ? "holds" : "FAILS"); if (!ok__ && !strcmp(label, g_target_label)) g_fail = 1; } while (0)
 #define VR_REQUIRES(c) do { if (!(c)) { printf("REPLAY requires false: %%s\n", #c); g_req_fail = 1; } } while (0)
 int __verif_exc = 0;
+#define FEQ(x, y) ({ __typeof__(x) x__ = (x); __typeof__(y) y__ = (y); (sizeof(x__) == sizeof(y__) && memcmp(&x__, &y__, sizeof(x__)) == 0) || (x__ != x__ && y__ != y__); })
+#define NOOVF_PLUS(a, b) ({ __typeof__((a) + (b)) r__; !__builtin_add_overflow(a, b, &r__); })
+#define NOOVF_MINUS(a, b) ({ __typeof__((a) - (b)) r__; !__builtin_sub_overflow(a, b, &r__); })
+#define NOOVF_MULT(a, b) ({ __typeof__((a) * (b)) r__; !__builtin_mul_overflow(a, b, &r__); })
+#define verif_add_i32(a, b) ((int)((int)(a) + (int)(b)))
+#define verif_add_u32(a, b) ((unsigned int)((unsigned int)(a) + (unsigned int)(b)))
+#define verif_add_i64(a, b) ((long)((long)(a) + (long)(b)))
+#define verif_add_u64(a, b) ((unsigned long)((unsigned long)(a) + (unsigned long)(b)))
+#define verif_add_f32(a, b) ((float)((float)(a) + (float)(b)))
+#define verif_add_f64(a, b) ((double)((double)(a) + (double)(b)))
+#define verif_sub_i32(a, b) ((int)((int)(a) - (int)(b)))
+#define verif_sub_u32(a, b) ((unsigned int)((unsigned int)(a) - (unsigned int)(b)))
+#define verif_sub_i64(a, b) ((long)((long)(a) - (long)(b)))
+#define verif_sub_u64(a, b) ((unsigned long)((unsigned long)(a) - (unsigned long)(b)))
+#define verif_sub_f32(a, b) ((float)((float)(a) - (float)(b)))
+#define verif_sub_f64(a, b) ((double)((double)(a) - (double)(b)))
+#define verif_mul_i32(a, b) ((int)((int)(a) * (int)(b)))
+#define verif_mul_u32(a, b) ((unsigned int)((unsigned int)(a) * (unsigned int)(b)))
+#define verif_mul_i64(a, b) ((long)((long)(a) * (long)(b)))
+#define verif_mul_u64(a, b) ((unsigned long)((unsigned long)(a) * (unsigned long)(b)))
+#define verif_mul_f32(a, b) ((float)((float)(a) * (float)(b)))
+#define verif_mul_f64(a, b) ((double)((double)(a) * (double)(b)))
+#define verif_div_i32(a, b) ((int)((int)(a) / (int)(b)))
+#define verif_div_u32(a, b) ((unsigned int)((unsigned int)(a) / (unsigned int)(b)))
+#define verif_div_i64(a, b) ((long)((long)(a) / (long)(b)))
+#define verif_div_u64(a, b) ((unsigned long)((unsigned long)(a) / (unsigned long)(b)))
+#define verif_div_f32(a, b) ((float)((float)(a) / (float)(b)))
+#define verif_div_f64(a, b) ((double)((double)(a) / (double)(b)))
+#define verif_mod_i32(a, b) ((int)((int)(a) %% (int)(b)))
+#define verif_mod_u32(a, b) ((unsigned int)((unsigned int)(a) %% (unsigned int)(b)))
+#define verif_mod_i64(a, b) ((long)((long)(a) %% (long)(b)))
+#define verif_mod_u64(a, b) ((unsigned long)((unsigned long)(a) %% (unsigned long)(b)))
 #define IMP(a, b) (!(a) || (b))
 #define IFF(a, b) (((a) != 0) == ((b) != 0))
 """
@@ -133,11 +165,11 @@ def adapter(U, cname, checked_spec=None):
         ens = []
         for lab, e in s.ensures.items():
             from unit import c_expr
-            ens.append((lab, lift_old(c_expr(e), olds)))
+            ens.append((lab, lift_old(c_expr(U.subst_params(e, f)), olds)))
         L = []
         from unit import c_expr
         for r in s.requires:
-            L.append("  VR_REQUIRES(%s);" % c_expr(r))
+            L.append("  VR_REQUIRES(%s);" % c_expr(U.subst_params(r, f)))
         for (n, inner) in olds:
             L.append("  auto %s = (%s);" % (n, inner))
         names = ", ".join(pn for (pn, _) in cparams)
@@ -206,6 +238,121 @@ def build_replay(U, job, ob, outdir, prop_id):
         info["replay_exit"] = r.returncode
         os.remove(exe)
     except (ExtractionBreak, ValueError, subprocess.TimeoutExpired) as ex:
+        output = "replay not possible: %s" % ex
+        confirmed = None
+    info["replay_output"] = output[-4000:]
+    info["reproduced_on_real_code"] = confirmed
+    info["replay_source"] = base + ".cpp" if os.path.exists(base + ".cpp") else None
+    with open(base + ".json", "w") as fh:
+        json.dump(info, fh, indent=1)
+    return base + ".json", confirmed, output
+
+
+def build_math_replay(U, job, ob, outdir, prop_id):
+    """Replay of a z3 model: run the real function on the model's inputs and compare its outputs with the
+    outputs the verifier predicted at that model (which violate the clause)."""
+    from fractions import Fraction
+    from unit import FnSpec
+    import cxx2c
+    tr = U.tr
+    ms = job["spec"]
+    target = ms.name
+    label = ob.get("label") or ob["id"]
+    cex = ob.get("cex", {})
+    os.makedirs(outdir, exist_ok=True)
+    base = os.path.join(outdir, "%s__%s__%s__math" % (prop_id, target, re.sub(r"\W+", "_", label)))
+    info = dict(property=prop_id, function=target, obligation=label, obligation_id=ob["id"], description=ob.get("desc"),
+                inputs={k: v.get("data") for k, v in cex.items()}, predicted_outputs=ob.get("predicted"), unit=U.name,
+                verifier="z3 %s on VCs generated from the extracted IR (lib/mathvc.py), mode %s" % ("", ms.mode), kind=ob.get("kind"))
+    confirmed, output = None, ""
+    def val(s):
+        s = s.replace("?", "")
+        try:
+            return float(Fraction(s))
+        except Exception:
+            return None
+    try:
+        f = tr.funcs[target]
+        fs = FnSpec(target, arrays=ms.arrays, noalias=True)
+        htxt, inputs = U.auto_harness(fs, f)
+        src = PRE % dict(unit_cpp=U.cpp, label=label)
+        for canon, cn in tr.rec_names.items():
+            if tr.rec_defs.get(cn) is None and cn not in tr.rec_info:
+                continue
+            src += "typedef %s %s;\n" % (canon, cn)
+        src += adapter(U, target)
+        def sub(m):
+            cty, name = m.group(1).strip(), m.group(2)
+            v = val(cex[name]["data"]) if name in cex else 0.0
+            if v is None:
+                raise ExtractionBreak("model value of %s is not rational: %s" % (name, cex[name]["data"]))
+            if cty in ("float", "double"):
+                return "%s %s = (%s)%r;" % (cty, name, cty, v)
+            return "%s %s = (%s)%d;" % (cty, name, cty, int(v))
+        h = re.sub(r"([A-Za-z_ ]+?) (in_\w+) = nondet_\w+\(\);", sub, htxt)
+        # print outputs
+        prints = []
+        leaves = []
+        if not (f.ret.kind == "builtin" and f.ret.name == "void"):
+            if f.ret.kind == "ptr":
+                pass
+            else:
+                U.flatten(f.ret, "ret", "RET", leaves)
+        names = []
+        for (iname, cty, path, lty) in leaves:
+            if cty is None:
+                continue
+            names.append(("RET" + path[3:], path))
+        for i, (pn, pt) in enumerate(f.params):
+            if pt.kind == "ptr" and pt.to.kind != "func":
+                lv = []
+                n = ms.arrays.get(pn)
+                et = pt.to if n is None else cxx2c.Ty("arr", to=pt.to, n=n)
+                U.flatten(et, "o_" + pn, "x", lv)
+                for (iname, cty, path, lty) in lv:
+                    if cty is not None:
+                        names.append(("post%d%s" % (i, path[len("o_" + pn):]), path))
+        for (nm, path) in names:
+            prints.append('  printf("OUT %s %%.17g\\n", (double)(%s));' % (nm, path))
+        h = h.replace('  __CPROVER_assert(0, "VERIF_CANARY reachable end of harness");', "\n".join(prints))
+        src += h + "\n}\nint main() { vr::h_%s(); return 0; }\n" % target
+        with open(base + ".cpp", "w") as fh:
+            fh.write(src)
+        exe = base + ".exe"
+        cmd = ["g++", "-std=c++11", "-O0", "-w", "-fno-access-control", "-DNDEBUG", "-I" + repo_path(), "-I" + os.path.join(VERIF, "units"), base + ".cpp", "-o", exe]
+        cmd += [d if d.startswith("-") else "-D" + d for d in U.defines]
+        p = subprocess.run(cmd, stdout=subprocess.PIPE, stderr=subprocess.PIPE, text=True, timeout=300)
+        info["replay_build"] = " ".join(cmd)
+        if p.returncode != 0:
+            raise ExtractionBreak("replay does not compile: " + p.stderr[-2000:])
+        r = subprocess.run([exe], stdout=subprocess.PIPE, stderr=subprocess.PIPE, text=True, timeout=60)
+        os.remove(exe)
+        output = r.stdout + r.stderr
+        native = {}
+        for line in r.stdout.splitlines():
+            if line.startswith("OUT "):
+                _, nm, v = line.split(" ", 2)
+                native[nm] = float(v)
+        pred = ob.get("predicted") or {}
+        cmp = []
+        agree = True
+        n_cmp = 0
+        scale = max([1.0] + [abs(val(v["data"]) or 0.0) for v in cex.values()])
+        for nm, pv in pred.items():
+            if nm not in native:
+                continue
+            pvf = val(pv) if pv not in ("True", "False") else (1.0 if pv == "True" else 0.0)
+            if pvf is None:
+                continue
+            n_cmp += 1
+            tol = ms.tol * max(1.0, abs(pvf), scale * scale)
+            ok = abs(native[nm] - pvf) <= tol
+            cmp.append("%s: real code %.9g, verifier predicted %.9g %s" % (nm, native[nm], pvf, "(agree)" if ok else "(DISAGREE)"))
+            agree = agree and ok
+        output += "\n".join(cmp)
+        confirmed = bool(agree and n_cmp > 0)
+        output += "\nREPLAY RESULT: %s\n" % ("real code reproduces the outputs that violate clause '%s'" % label if confirmed else "not reproduced")
+    except (ExtractionBreak, ValueError, subprocess.TimeoutExpired, KeyError) as ex:
         output = "replay not possible: %s" % ex
         confirmed = None
     info["replay_output"] = output[-4000:]
